@@ -27,3 +27,27 @@ Definition kARPASpaces_table : list bool :=
 """ % (tab(lines[0]), tab(lines[1]))
     vlib.write_if_changed(os.path.join(vlib.COQ, "Gen", "Spaces.v"), txt)
     return lines
+
+
+WHAT = "util::kSpaces (util/spaces.cc) + lm::kARPASpaces (lm/read_arpa.cc) via harness/drivers/c14_tables.cc"
+
+
+def regen_spaces_safe():
+    """A source from which the tables can no longer be extracted (array renamed / retyped / moved, printer no longer compiles or
+    prints something else) is a broken tie, not an infrastructure error: the previous coq/Gen/Spaces.v stays in place (if there is
+    none the proof step fails and is reported), the run goes on, and the caller reports `translation:...` at the end.
+    Returns None, or the reason as text.  A tree whose libraries do not build at all still raises InfraError."""
+    vlib.build_repo(["kenlm", "kenlm_util"])
+    try:
+        regen_spaces()
+        return None
+    except Exception as e:  # noqa: anything the extractor can raise
+        return "%s: %s" % (type(e).__name__, str(e)[-1500:])
+
+
+def report_translation(ctx, reason):
+    """at the end of a run: the tie through the generated tables is broken; found=False unless a failing input was already reported"""
+    if reason and not any(found for _, found in ctx.violations):
+        ctx.report("translation:kSpaces+kARPASpaces-tables", "the 256-entry delimiter tables can no longer be regenerated from the current sources, so "
+                   "coq/Gen/Spaces.v (and every theorem / model run that uses it) is no longer tied to the code; the specification oracle found no failing input",
+                   {"unit": WHAT, "reason": reason, "kept": "the previous coq/Gen/Spaces.v, if any"}, found=False)
